@@ -58,6 +58,13 @@ Served(t, ty) == ServedIn(Cur(t), ty, defaults, held)
 \* the observation vector: what every thread would get for every type now
 Srv == [t \in Threads |-> [ty \in ReqTypes |-> Served(t, ty)]]
 
+\* A handler is user code and may raise.  The exception of the handler that serves the request reaches the
+\* caller; the request is NOT passed on to another handler (in particular not to the default, even when
+\* the exception is a KeyError, the exception the runtime's own table lookups use internally).
+Raised(tag) == "KeyError<" \o tag \o ">"
+SrvX == [t \in Threads |-> [ty \in ReqTypes |->
+            IF Served(t, ty) = TypeErr THEN TypeErr ELSE Raised(Served(t, ty))]]
+
 NoHeld == [ty \in ReqTypes |-> NoH]
 
 Init ==
@@ -70,7 +77,7 @@ Init ==
     /\ act = [a |-> "Init"]
 
 \* cur: which runtime object is current in every thread afterwards (0 = the thread's own implicit runtime)
-Observe(a) == act' = a @@ [srv |-> Srv', cur |-> [t \in Threads |-> Cur(t)']]
+Observe(a) == act' = a @@ [srv |-> Srv', srvx |-> SrvX', cur |-> [t \in Threads |-> Cur(t)']]
 
 \* Runtime({ty: handler ...}) built directly from explicit handlers
 Create(t, tys) ==
